@@ -656,6 +656,7 @@ func c19r3(c *Ctx) {
 	for _, m := range methodsOf(c.P, fc) {
 		n := 0
 		var ops []string
+		var opInstrs []ssa.Instruction
 		feedsOnlyCapacity := 0
 		for _, b := range m.Blocks {
 			for _, in := range b.Instrs {
@@ -667,11 +668,13 @@ func c19r3(c *Ctx) {
 				if sc != nil && mapMethods[sc] {
 					n++
 					ops = append(ops, sc.Name())
+					opInstrs = append(opInstrs, in)
 				}
 				// a critical section of the container's own (a second piece of shared state next to the map, e.g. a memorised key set)
 				if op, _ := mutexOp(call); op == "Lock" || op == "RLock" {
 					n++
 					ops = append(ops, "own "+op+" region")
+					opInstrs = append(opInstrs, in)
 				}
 				// a call to another container method (f.Len() inside Keys()) whose result only sizes an allocation
 				if sc != nil && sc.Signature.Recv() != nil && sameBase(sc.Signature.Recv().Type(), fc) && sc != m {
@@ -688,8 +691,24 @@ func c19r3(c *Ctx) {
 					} else {
 						n++
 						ops = append(ops, sc.Name())
+						opInstrs = append(opInstrs, in)
 					}
 				}
+			}
+		}
+		// operations on different branches exclude each other: what counts is how many lie on one path
+		if n > 1 {
+			onePath := false
+			for _, a := range opInstrs {
+				for _, b := range opInstrs {
+					if a != b && instrReaches(m, a, b, nil) {
+						onePath = true
+					}
+				}
+			}
+			if !onePath {
+				ops = append(ops, "(on mutually exclusive paths)")
+				n = 1
 			}
 		}
 		construct := "functionContainer." + m.Name() + ": result flows from one map operation"
